@@ -334,7 +334,8 @@ def eval_adverb_scan_over(f, a, op, backend):
             return np_backend.subtract.accumulate(a)
         elif safe_eq(op.a, '*') and hasattr(np_backend.multiply, 'accumulate'):
             return np_backend.multiply.accumulate(a)
-        elif safe_eq(op.a, '%') and hasattr(np_backend.divide, 'accumulate'):
+        elif safe_eq(op.a, '%') and hasattr(np_backend.divide, 'accumulate') and len(a) > 1:
+            # (a single element or row is not divided by anything: it stays what it is, an integer stays an integer)
             return np_backend.divide.accumulate(a)
     r = list(itertools.accumulate(a, f))
     return backend.kg_asarray(r)
